@@ -322,7 +322,13 @@ func baseName(p pair, f *ref.Frame) string { return p.k.Name + "/" + p.v.String(
 // truncation at every offset, (c) 64 bit flips, (d) splices with frames of two other pairs; each
 // mutant to all frame-level entry points, and (for mutations behind the header) the body to the
 // body-level entry points behind the valid header.
-func (wk *worker) frameSweep(pi, d int) {
+// The sweep of one base is split into sweepParts units (mutant number modulo sweepParts), so that the
+// out-of-memory deaths a base provokes (each followed by a restart) do not all queue up in one worker.
+const sweepParts = 4
+
+func (wk *worker) frameSweep(pi, d, part int) {
+	mutNo := 0
+	take := func() bool { mutNo++; return mutNo%sweepParts == part }
 	p := pairs[pi]
 	fl := sweepFlags[d%len(sweepFlags)]
 	f, b := smallFrame(wk.seed, utag(tagSweep, pi, d), p, fl, 300, true, randChooser)
@@ -333,14 +339,21 @@ func (wk *worker) frameSweep(pi, d int) {
 	cl := call{ver: byte(p.v), base: baseName(p, f)}
 	bf := makeBodyFns(libHeader(f, f.Flags()), 0, f.Flags() == 0)
 	r := mon.NewRand(wk.seed, utag(tagSweep, pi, d)<<8|0xFF)
-	wk.frameEPs(cl, b, mut{Class: mcValid}, 0, true)
-	wk.bodyEPs(cl, b[hl:], mut{Class: mcValid}, 0, &bf)
+	if take() {
+		wk.frameEPs(cl, b, mut{Class: mcValid}, 0, true)
+		wk.bodyEPs(cl, b[hl:], mut{Class: mcValid}, 0, &bf)
+	}
 	// the same draw with its original (unsoftened) contents: as it is, and truncated at every offset
 	if hf, hb := smallFrame(wk.seed, utag(tagSweep, pi, d), p, fl, 300, false, randChooser); hb != nil && len(hb) <= 8192 {
 		hbf := makeBodyFns(libHeader(hf, hf.Flags()), 0, hf.Flags() == 0)
-		wk.frameEPs(cl, hb, mut{Class: mcValid, W: 1}, 0, true)
-		wk.bodyEPs(cl, hb[hl:], mut{Class: mcValid, W: 1}, 0, &hbf)
+		if take() {
+			wk.frameEPs(cl, hb, mut{Class: mcValid, W: 1}, 0, true)
+			wk.bodyEPs(cl, hb[hl:], mut{Class: mcValid, W: 1}, 0, &hbf)
+		}
 		sweep(hb, sweepSpec{Trunc: true}, r, func(in []byte, m mut) {
+			if !take() {
+				return
+			}
 			wk.frameEPs(cl, in, m, 0, false)
 			if len(in) >= hl {
 				wk.bodyEPs(cl, in[hl:], m, 0, &hbf)
@@ -355,6 +368,9 @@ func (wk *worker) frameSweep(pi, d int) {
 		sp.Flips = 32
 	}
 	sweep(b, sp, r, func(in []byte, m mut) {
+		if !take() {
+			return
+		}
 		if m.O >= hl && len(in) >= hl {
 			wk.frameEPsRot(cl, in, m, 0, true, m.O+m.W)
 			wk.bodyEPsRot(cl, in[hl:], m, 0, &bf, m.O+m.W+1)
@@ -363,6 +379,9 @@ func (wk *worker) frameSweep(pi, d int) {
 		}
 	})
 	big24Sample(b, 0, 1, r, func(in []byte, m mut) {
+		if !take() {
+			return
+		}
 		wk.frameEPs(cl, in, m, 0, true)
 		if m.O >= hl {
 			wk.bodyEPs(cl, in[hl:], m, 0, &bf)
@@ -389,6 +408,9 @@ func (wk *worker) frameSweep(pi, d int) {
 		for j := 0; j < nsp; j++ {
 			s := splice(b, ob, r)
 			m := mut{Class: mcSplice, O: oi, W: j}
+			if !take() {
+				continue
+			}
 			if !wk.thorough {
 				rot = j
 			}
